@@ -143,6 +143,8 @@ Definition in_bounds_incl (z : Z) (n : nat) : bool := (0 <=? z) && (z <=? Z.of_n
 
 Definition byte_val (n : N) : value := VInt (Z.of_N n).
 
+Definition is_neg (z : Z) : bool := z <? 0.
+
 Definition binop_int (op : binop) (x y : Z) : eres :=
   match op with
   | Add => EV (VInt (x + y))
@@ -150,8 +152,8 @@ Definition binop_int (op : binop) (x y : Z) : eres :=
   | Mul => EV (VInt (x * y))
   | Quot => if y =? 0 then EPanic else EV (VInt (Z.quot x y))
   | Rem => if y =? 0 then EPanic else EV (VInt (Z.rem x y))
-  | Shl => if y <? 0 then EPanic else EV (VInt (Z.shiftl x y))
-  | Shr => if y <? 0 then EPanic else EV (VInt (Z.shiftr x y))
+  | Shl => if is_neg y then EPanic else EV (VInt (Z.shiftl x y))     (* negative count panics *)
+  | Shr => if is_neg y then EPanic else EV (VInt (Z.shiftr x y))
   | BAnd => EV (VInt (Z.land x y))
   | BOr => EV (VInt (Z.lor x y))
   | BXor => EV (VInt (Z.lxor x y))
